@@ -512,7 +512,19 @@ func genProbe(ch *kernel.Chooser, snap *regModel, st *kernel.Stats) (probe, bool
 			out = append(out, item{kind: kPrefix, text: sym, label: sym})
 			st.Inc("neighbour.builtin_prefix")
 		}
-		out = append(out, operand())
+		if ch.Bool(1, 6) {
+			// a parenthesised operand, possibly with a built-in binary inside: a multi-token head
+			out = append(out, item{kind: kOpen, text: "("})
+			out = append(out, operand())
+			if ch.Bool(1, 2) {
+				b := builtinBinary[ch.Choose(len(builtinBinary))]
+				out = append(out, infixItem(b.sym, b.level, false), operand())
+			}
+			out = append(out, item{kind: kClose, text: ")"})
+			st.Inc("neighbour.parenthesised_operand")
+		} else {
+			out = append(out, operand())
+		}
 		switch ch.Weighted(10, 2, 2, 2, 2) {
 		case 1:
 			out = append(out, item{kind: kSuffix, text: "++", label: "++", level: parser.POSTFIX, shape: "post"})
@@ -993,6 +1005,13 @@ func (e *Engine) Run(prop string, ch *kernel.Chooser, st *kernel.Stats) kernel.R
 				// levels with a built-in binary operator, more often
 				level = parser.LOGICAL_OR + ch.Choose(6)
 			}
+			outOfRange := false
+			if role == "infix" && !builtin && ch.Bool(1, 12) {
+				// a level outside 1..13: whether it is accepted is not specified; whatever happens must be consistent
+				level = []int{0, -1, -7, 14, 20, 1000}[ch.Choose(6)]
+				outOfRange = true
+				st.Inc("probe.infix_level_outside_1_13")
+			}
 			op := regOp{Kind: role, Name: name, Type: int(tt), Level: level, Pair: pi, Via: ch.Weighted(6, 1, 1, 1)}
 			if op.Via != 0 {
 				st.Inc("probe.operator_registered_from_inside_a_plugin")
@@ -1018,6 +1037,21 @@ func (e *Engine) Run(prop string, ch *kernel.Chooser, st *kernel.Stats) kernel.R
 				wantRefused = p.model.postfix[tt]
 			}
 			_, refused := p.applyReal(op)
+			if outOfRange && !wantRefused {
+				// accepted or refused, both are fine; the model follows what happened. An accepted operator at such a
+				// level has the role (later duplicates are refused) but is never used in probes.
+				hist = append(hist, op)
+				if refused {
+					op.Note = "refused (level outside 1..13)"
+					if pr, ok := genProbe(ch, p.model, st); ok {
+						checkProbe(pi, p, p.model, pr, p.pb, nil, "after a refused out-of-range registration")
+					}
+				} else {
+					p.model.infix[tt] = -2
+					p.acc = append(p.acc, op)
+				}
+				continue
+			}
 			if refused != wantRefused {
 				add("refusal", fmt.Sprintf("refusal|%s|want=%v|builtin=%v", role, wantRefused, builtin),
 					fmt.Sprintf("pair %d: Register%sOperator(%s) error=%v, but the token %s that role", pi, strings.Title(role), name, refused, map[bool]string{true: "already has", false: "does not have"}[wantRefused]))
